@@ -1,4 +1,4 @@
-import Stbem.Lemmas.EstimHH2
+import Stbem.Lemmas.EstimSolve
 import Stbem.Lemmas.EstimProlong
 import Stbem.Props.C06
 import Mathlib.Algebra.Module.Defs
@@ -15,7 +15,10 @@ the source text) and `prolongOne` / `prolongate` of `Stbem.Model.Mesh`.
 * C. `np.repeat(Phi, 4)` is the piecewise-constant extension to the flattened list of children;
 * D. hierarchical indicators: per element `|⟨rhs - VΦ, ψ_k⟩|² / ⟨Vψ_k, ψ_k⟩`, the checkerboard contribution shared
   ½–½, non-negative; the code's assertion fails exactly when a scaling is not positive;
-* E. h-h/2: the squared value is `dᵀ A d` with `A d = rhs - A PΦ`; it vanishes when `PΦ` solves the fine problem;
+* E. h-h/2: the squared value is `dᵀ A d` with `A d = rhs - A PΦ`; it vanishes when `PΦ` solves the fine problem; the fine
+  solve of the model is sound AND complete (`solve_complete`: every square injective matrix is solved — the elimination
+  pivots by row search —, `solve_none_singular`; determinant form in `Props/C20Solve.lean`), so the `LinAlgError` branch is
+  unreachable for an injective fine matrix (`hh2_not_singular`);
 * F. `Prolongate`: the value at a fine element is the value at its nearest (in an antichain: unique)
   ancestor-or-self in the coarse list; identity for equal lists; never fails on a well-formed parent table when
   every fine element has a coarse ancestor.  Well-formedness of the table is an invariant of the mesh model.
@@ -262,16 +265,35 @@ example : hierEstimate [[1], [1], [1], [1]] [2] none none [[[0, 0, 0, 0], [0, 0,
 theorem solve_spec {A : List (List Rat)} {b y : List Rat} (h : solve A b = some y) :
     mulVec A y = b ∧ y.length = b.length := ⟨(solve_sound h).1, (solve_sound h).2.1⟩
 
-/- Completeness of the elimination (full statement, NOT proved):
-     theorem solve_complete (A b) (hsq : A.length = b.length) (hrow : ∀ r ∈ A, r.length = b.length)
-         (hinj : InjOn A b.length) : ∃ y, solve A b = some y
-   What is proved instead: whatever `solve` returns is a solution (`solve_spec`), and for an injective matrix it is
-   the only one (`solve_complete_partial`).  Missing: that the pivot search of `elim` succeeds for every regular
-   matrix and that back-substitution reproduces the solution; this direction is covered by the correspondence run
-   only (the model must return the value of the exact Python solver on every instance). -/
-theorem solve_complete_partial {A : List (List Rat)} {b y : List Rat} (hinj : InjOn A b.length)
+/-- **completeness of the fine solve** (full statement; formerly `solve_complete_partial`).  The elimination of the
+model searches the remaining rows for one with a non-zero leading entry (it pivots: a zero in a diagonal position is
+no obstacle, see the example below), so no hypothesis beyond regularity is needed: for a square matrix that is
+injective on vectors (equivalently `det ≠ 0`, `injOn_iff_det_ne_zero` in `Props/C20Solve.lean`) and every right-hand
+side, `solve` returns a vector, that vector solves the system, and it is the only solution. -/
+theorem solve_complete {A : List (List Rat)} {b : List Rat} (hsq : A.length = b.length)
+    (hrow : ∀ r ∈ A, r.length = b.length) (hinj : InjOn A b.length) :
+    ∃ y, solve A b = some y ∧ mulVec A y = b ∧ y.length = b.length ∧
+      ∀ p, mulVec A p = b → p.length = b.length → y = p := by
+  obtain ⟨y, hy, h1, h2⟩ := solve_complete' hsq hrow hinj
+  exact ⟨y, hy, h1, h2, fun _ hp hpl => solve_unique hinj hy hp hpl⟩
+
+/-- `none` (the `LinAlgError` branch of the model) only for singular matrices -/
+theorem solve_none_singular {A : List (List Rat)} {b : List Rat} (hsq : A.length = b.length)
+    (hrow : ∀ r ∈ A, r.length = b.length) (h : solve A b = none) : ¬InjOn A b.length := by
+  intro hinj
+  obtain ⟨y, hy, -⟩ := solve_complete' hsq hrow hinj
+  rw [hy] at h
+  cases h
+
+/-- whatever `solve` returns is the only solution of an injective system (no shape hypotheses) -/
+theorem solve_unique_solution {A : List (List Rat)} {b y : List Rat} (hinj : InjOn A b.length)
     (h : solve A b = some y) : ∀ p, mulVec A p = b → p.length = b.length → y = p :=
   fun _ hp hpl => solve_unique hinj h hp hpl
+
+/-- a regular matrix with a zero in the first diagonal position is solved (row search = pivoting); a singular one
+is refused -/
+example : solve [[0, 1], [1, 0]] [2, 3] = some [3, 2] ∧ solve [[0, 2, 1], [0, 0, 3], [5, 1, 1]] [1, 3, 2] = some [1/5, 0, 1] ∧
+    solve [[1, 2], [2, 4]] [1, 0] = none := by decide +kernel
 
 /-- the squared estimator is `dᵀ A d` where `d = y - PΦ`, `y` solves the fine problem `A y = rhs`, hence
 `A d = rhs - A PΦ` is the fine residual of the extension -/
@@ -319,6 +341,31 @@ theorem A0_inj : InjOn A0 4 := by
     have e3 : c = c' := by linarith
     have e4 : d = d' := by linarith
     rw [e1, e2, e3, e4]
+
+/-- the hypotheses of `solve_complete` are satisfiable -/
+example : A0.length = [1, 1, 1, (1 : Rat)].length ∧ (∀ r ∈ A0, r.length = [1, 1, 1, (1 : Rat)].length) ∧
+    InjOn A0 [1, 1, 1, (1 : Rat)].length := ⟨rfl, by decide, A0_inj⟩
+
+/-- for a square injective fine matrix (C13: positive definite ⇒ injective) and data vectors of the right length the
+run never takes the `LinAlgError` branch -/
+theorem hh2_not_singular {A : List (List Rat)} {phi : List Rat} {g m0 : Option (List Rat)}
+    (hrow : ∀ r ∈ A, r.length = A.length) (hg : ∀ v, g = some v → v.length = A.length)
+    (hm : ∀ v, m0 = some v → v.length = A.length) (hinj : InjOn A A.length) :
+    hh2Sq A phi g m0 ≠ .error "singular" := by
+  have hl := mkRhs_length A.length g m0 hg hm
+  obtain ⟨y, hy, -⟩ := solve_complete' (A := A) (b := mkRhs A.length g m0) hl.symm
+    (by rw [hl]; exact hrow) (by rw [hl]; exact hinj)
+  unfold hh2Sq
+  simp only [hy]
+  split
+  · split
+    · decide
+    · split
+      · decide
+      · intro h; cases h
+  · decide
+
+example : (∀ r ∈ A0, r.length = A0.length) ∧ InjOn A0 A0.length := ⟨by decide, A0_inj⟩
 
 /-- the hypotheses of `hh2_zero` are satisfiable -/
 example : hh2Sq A0 [1/2] (some [1, 1, 1, 1]) none = .ok 0 ∧ InjOn A0 (mkRhs A0.length (some [1, 1, 1, 1]) none).length ∧
